@@ -72,9 +72,11 @@ def cases(draw):
     elif kind == "add_ngram":
         op["k"] = draw(st.one_of(key, vs.biased_bytes(0, 40), vs.biased_bytes(0, 40), st.binary(min_size=250, max_size=300)))
         op["n"] = draw(st.integers(1, len(op["k"]) + 2)) if len(op["k"]) < 100 else draw(st.sampled_from([1, 2, 5, 200, 255, 256, len(op["k"]) - 1, len(op["k"])]))
+        if draw(st.integers(0, 9)) == 0:  # sizes that do not fit 32 bits
+            op["n"] = draw(st.sampled_from([2**32 + 1, 2**32 + 2, 2**40 + 3, 2**64 - 1]))
     else:
         op["keys"] = draw(st.lists(st.one_of(key, vs.biased_bytes(0, 24), vs.biased_bytes(0, 24), st.binary(min_size=254, max_size=260)), min_size=0, max_size=4))
-        op["n"] = draw(st.integers(1, 9))
+        op["n"] = draw(st.one_of(st.integers(1, 9), st.integers(1, 9), st.integers(1, 9), st.sampled_from([2**32 + 1, 2**32 + 3, 2**64 - 1])))
     cont = draw(st.lists(st.tuples(key, st.integers(1, 30)), min_size=6, max_size=6))
     case = {"cfg": cfg, "pre": pre, "op": op, "cont": cont, "rs": draw(st.integers(0, 2**31 - 2)), "as_counter": draw(st.booleans())}
     if log and kind == "add" and draw(st.booleans()):
